@@ -340,3 +340,40 @@ def coupling_reports_success_only_at_a_fixed_point(ctx):
     """the and_ that couples the constraints with the strict bounds hands back a vector only where both members leave it unchanged (success path guarded by the fixed-point test and no pending exception), otherwise the bounds fallback (onfail); the members are called on copies, so an in-place member cannot make the history alias itself and fake the fixed point (shared with C17.a)"""
     from .c17 import success_only_at_fixed_point
     success_only_at_fixed_point(ctx, names=('and_',))
+
+
+def best_survives_a_change_of_constraints(ctx):
+    """differential evolution keeps an all-time best (self.bestSolution / self.bestEnergy) apart from its population and replaces
+    it only by a better trial.  When the constraints change between iterations (SetConstraints, a collapse) the objective is
+    re-decorated at the next step; unless that re-decoration (or the setters) also re-validates or resets the stored best, the
+    old best - found without the new constraints - keeps winning and is what the solver reports.  Shared by C03.f and C11.m."""
+    from .common import CONCRETE_SOLVERS
+    n = 0
+    for key in ('DE', 'DE2'):
+        cls = ctx.cls(CONCRETE_SOLVERS[key])
+        step = ctx.model.lookup_method(cls, '_Step')
+        sn = selfname_of(step)
+        keeps_best = any(isinstance(x, ast.Attribute) and x.attr in ('bestEnergy', '_bestEnergy') and isinstance(x.ctx, ast.Store) for x in ast.walk(step.node))
+        if not keeps_best:
+            continue
+        n += 1
+        scope = [ctx.model.lookup_method(cls, m) for m in ('_decorate_objective', '_update_objective', 'SetConstraints', 'Collapse', '_bootstrap_objective')]
+        refreshed = None
+        for m in scope:
+            if m is None:
+                continue
+            ctx.touch(m)
+            for x in ast.walk(m.node):
+                if isinstance(x, ast.Attribute) and x.attr in ('bestEnergy', '_bestEnergy', 'bestSolution', '_bestSolution') and isinstance(x.ctx, ast.Store):
+                    refreshed = (m, x)
+        deco = ctx.model.lookup_method(cls, '_decorate_objective')
+        ctx.check(refreshed is not None, '%s#best-across-constraints' % cls.name, 'the stored all-time best is re-validated or reset when the constraints change',
+                  '%s keeps its all-time best across a change of constraints: neither the re-decoration of the objective nor SetConstraints / Collapse touches bestSolution / bestEnergy, so a best found before the constraints were installed is reported although it violates them'
+                  % cls.name, deco, deco.node, statement='all-time best kept across re-decoration')
+    ctx.need(n >= 2, 'expected the two DE solvers to keep an all-time best')
+
+
+@rule('C03.f', min_instances=2)
+def reported_best_satisfies_the_constraints_in_force(ctx):
+    """the reported solution satisfies the constraints in force also when they were installed between iterations: a solver that stores an all-time best re-validates it when the constraints change"""
+    best_survives_a_change_of_constraints(ctx)
